@@ -7,6 +7,7 @@ use crate::impl_::lazy::Lazy;
 use crate::impl_::listener::Listener;
 use crate::impl_::node::{box_clone_vec_is_node, IsNode, IsWeakNode, Node, WeakNode};
 use crate::impl_::sodium_ctx::SodiumCtx;
+use crate::impl_::sodium_ctx::SodiumCtxData;
 use crate::impl_::stream_loop::StreamLoop;
 use crate::impl_::stream_sink::StreamSink;
 
@@ -225,27 +226,17 @@ impl<A: Send + 'static> Stream<A> {
                 };
             }
             result_forward_ref.assign(&s);
-            {
-                let s = s.clone();
-                let sodium_ctx2 = sodium_ctx.clone();
-                sodium_ctx.pre_eot(move || {
-                    {
-                        let mut update = node.data.update.write();
-                        let update: &mut Box<_> = &mut update;
-                        update();
-                    }
-                    let is_firing =
-                        s.with_data(|data: &mut StreamData<A>| data.firing_op.is_some());
-                    if is_firing {
-                        s.node().data.changed.store(true, Ordering::SeqCst);
-                        let s = s.clone();
-                        sodium_ctx2.pre_post(move || {
-                            s.with_data(|data: &mut StreamData<A>| {
-                                data.firing_op = None;
-                                s.node().data.changed.store(true, Ordering::SeqCst);
-                            });
-                        });
-                    }
+            // A dependency that already fired or was already visited in the current transaction will
+            // not push its dependents again: have the new node visited by the propagation of that
+            // transaction instead, which updates it once, after all of its dependencies have settled.
+            // (Running the update right away would use whatever subset of its inputs is known so far.)
+            let catch_up = node.data.dependencies.read().iter().any(|dependency| {
+                dependency.data().visited.load(Ordering::SeqCst)
+                    || dependency.data().changed.load(Ordering::SeqCst)
+            });
+            if catch_up {
+                sodium_ctx.with_data(|data: &mut SodiumCtxData| {
+                    data.changed_nodes.push(s.box_clone());
                 });
             }
             s
